@@ -17,6 +17,7 @@ def args(t):
         else: cur += ch
     if cur: res.append(cur)
     return res
+SK = []
 def split_and(t):
     t = t.strip(); out = []
     if t.startswith('(and '):
@@ -27,13 +28,24 @@ def split_and(t):
             for c in split_and(a[1]): out.append('(=> %s %s)' % (a[0], c))
         else: out.append(t)
     elif t.startswith('(forall '):
-        # (forall (binders) (! body :pattern ..)) or (forall (binders) body): split body conjuncts when it is an implication
-        out.append(t)
+        # skolemize: (forall (binders) (! body :pattern ..)) or (forall (binders) body) -> body over fresh constants
+        a = args(t[len('(forall '):-1])
+        binders = args(a[0][1:-1])
+        body = a[1]
+        if body.startswith('(! '):
+            body = args(body[3:-1])[0]
+        for b in binders:
+            nm, so = args(b[1:-1])[0], ' '.join(args(b[1:-1])[1:])
+            d = '(declare-const %s_sk %s)' % (nm, so)
+            if d not in SK: SK.append(d)
+            import re
+            body = re.sub(r'(?<![\w!@|])' + re.escape(nm) + r'(?![\w!@|])', nm + '_sk', body)
+        out += split_and(body)
     else: out.append(t)
     return out
 cs = split_and(goal)
 def run(c):
-    q = s[:i] + '(assert (not %s))\n' % c + s[j:]
+    q = s[:i] + '\n'.join(SK) + '\n(assert (not %s))\n' % c + s[j:]
     q = q.replace('(get-model)', '')
     f = tempfile.NamedTemporaryFile('w', suffix='.smt2', delete=False); f.write(q); f.close()
     try:
